@@ -44,7 +44,7 @@ def run(module, cfg, workers=None, simulate=None, depth=None, seed=None, env=Non
     os.makedirs(os.path.join(OUT, "tlc"), exist_ok=True)
     meta = tempfile.mkdtemp(prefix="md_", dir=os.path.join(OUT, "tlc"))
     cfgp = cfg if os.path.isabs(cfg) else os.path.join(specdir, cfg)
-    jopts = ["-XX:+UseParallelGC", "-Xmx" + heap]
+    jopts = ["-XX:+UseParallelGC", "-Xmx" + heap, "-Djava.io.tmpdir=" + meta]      # (TLC's own temporary files go with the run's metadir)
     if dfs_queue:
         jopts.append("-Dtlc2.tool.queue.IStateQueue=StateDeque")
     cmd = ["java"] + jopts + ["-cp", _classpath(), "tlc2.TLC", "-metadir", meta, "-noGenerateSpecTE",
